@@ -2,7 +2,7 @@
    Statements only; each proof is one [exact] of a lemma in Proofs/P13.v.
    [injective r]: r maps different names to different names. *)
 From Coq Require Import List Bool ZArith String.
-From XV Require Import Base.Res Base.Assoc Base.Seq1D Base.Tensor Model.Axis Model.GridCtor Model.Pad
+From XV Require Import Base.Res Base.Assoc Base.Ops Base.Seq1D Base.Tensor Model.Axis Model.GridCtor Model.Pad Model.GridOps Model.Dispatch
      Model.Signature Model.UFunc Proofs.TensorLemmas Proofs.P13 Proofs.Tie_names Generated.G13.
 Import ListNotations.
 Open Scope string_scope.
@@ -106,7 +106,24 @@ Theorem C13_pad : forall (r ra : string -> string), injective r -> injective ra 
   end.
 Proof. intros r ra Hr Hra A dflt. exact (pad_rename r ra Hr Hra dflt). Qed.
 
+(* A second whole entry point: Grid.diff / interp / min / max over any number of axes, on
+   grids without face connections, for any table of predefined operations.  The renamed
+   call (axes, dimensions, the keys of `to` / boundary / fill_value, the dataset's sizes)
+   raises the same exception or returns the renamed result with the same number at every
+   point and the dimensions in the renamed order. *)
+Theorem C13_grid_op : forall (r ra : string -> string), injective r -> injective ra ->
+  forall {A} (o : Ops A) (ofZ : Z -> A) tbl (g : grid A) dssizes c (t : tensor A),
+  respects t ->
+  match grid_op o ofZ tbl (rename_grid r ra g) (rename_dims r dssizes) (rename_call ra c) (rename_tensor r t),
+        grid_op o ofZ tbl g dssizes c t with
+  | Ok t1, Ok t2 => teq t1 (rename_tensor r t2)
+  | Err e1, Err e2 => e1 = e2
+  | _, _ => False
+  end.
+Proof. intros r ra Hr Hra A o ofZ. exact (grid_op_rename r ra Hr Hra o ofZ). Qed.
+
 Print Assumptions C13_no_name_inspection.
+Print Assumptions C13_grid_op.
 Print Assumptions C13_pad.
 Print Assumptions C13_lookup.
 Print Assumptions C13_first_appearance.
